@@ -7,11 +7,11 @@ CHECK = {
     "harness": ["actor/zz_verif_c12.go"],
     "entries": [
         dict(MO, fn=P + "vC12_timeInit"),
-        dict(MO, fn=P + "vC12_timeStep"),
+        dict(MO, fn=P + "vC12_timeStep", cases={"event": [0, 1, 2, 3, 4, 5], "entry": [0, 1, 2]}),
         dict(MO, fn=P + "vC12_timeHistory2"),
         dict(MO, fn=P + "vC12_race"),
         dict(MO, fn=P + "vC12_countInit"),
-        dict(MO, fn=P + "vC12_countStep"),
+        dict(MO, fn=P + "vC12_countStep", cases={"event": [0, 1, 2, 3, 4, 5], "entry": [0, 1, 2]}),
         dict(MO, fn=P + "vC12_countHistory3"),
         dict(MO, fn=P + "vC12_countReregister"),
         dict(MO, fn=P + "vC12_longlived"),
